@@ -173,6 +173,10 @@ func (o Op) Coq() string {
 			c = "CIdle"
 		case "done":
 			c = "CDone"
+		case "close":
+			c = "CClose"
+		case "unselect":
+			c = "CUnselect"
 		}
 		return fmt.Sprintf("Cmd %d (%s)", o.S, c)
 	}
@@ -483,6 +487,10 @@ func (w *World) Do(o Op) (StepObs, error) {
 		r, err = c.Cmd(fmt.Sprintf("STATUS m%d (MESSAGES)", o.Mb))
 	case "check":
 		r, err = c.Cmd("CHECK")
+	case "close":
+		r, err = c.Cmd("CLOSE")
+	case "unselect":
+		r, err = c.Cmd("UNSELECT")
 	case "idle":
 		tag := c.NextTag()
 		if err := c.SendRaw([]byte(tag + " IDLE\r\n")); err != nil {
